@@ -21,6 +21,7 @@ EXPLANATION = (
     'compatibility relations of the two feature classes).  The full success condition and the content of bindings '
     'quantify over runtime values and are not decided.'
     ' The leaf numbering under a variable is accepted in three spellings (threaded index, shared counter, enumerate over a left-to-right generator); every leaf path is judged.'
+    " Fourth round: Functor.functor and the slash operators (rules of C13) are conditions of 'a bound sub-category is handed out as it was matched'."
 )
 TRUSTED = ['CPython ast', 'sa/pysym.py path walker', 'rule table DESIGN.md C06']
 
